@@ -212,6 +212,10 @@ def run(ctx):
     cases, path = ctx.gen("Gen_ImageStack", "Gen_ImageStack.%s.cfg" % ctx.tier)     # ASSUMEs: Load(Save(a)) = a for every shape; a wrong axes tag is visible on asymmetric shapes only
     ctx.run_cases("io-tiff", cases, path, execute, "Judge_ImageStack", keyfn, nontrivial)
     other = [dict(c, fmt=("npy" if k % 2 else "nrrd"), fdarg="same") for k, c in enumerate(cases[:: (9 if q else 3)])]
+    # stacks with exactly three planes / rows / columns and no channel axis (a 3-d array whose last axis has length 3 is a stack, not an RGB plane)
+    other += [{"kind": "io", "shape": sh, "sd": sd, "fdarg": "same", "ld": ld, "fmt": fmt}
+              for sh in ([2, 2, 3, 0], [2, 3, 2, 0], [3, 2, 2, 0], [1, 1, 3, 0], [3, 3, 3, 0], [2, 2, 3, 1])
+              for fmt, sd, ld in (("npy", "u8", "u8"), ("nrrd", "u16", "f32"), ("tif", "u8", "f32"), ("npy", "f32", "u8"))]
     p = ctx.write_cases("io-npy-nrrd", other)
     ctx.run_cases("io-npy-nrrd", other, p, execute, "Judge_ImageStack", keyfn, nontrivial)
     # saturated voxels and the top of the unit interval; half-precision files and loads (a narrowing unsigned cast is not a documented rescaling: left out)
